@@ -402,6 +402,8 @@ def c11_jobs(tier):
             J(9, enc([2, 0]))
             J(10)
             for k in range(n):
+                J(14, k)
+            for k in range(n):
                 for pos in range(n):
                     if quick and (k + pos) % 2 == 1:
                         continue
@@ -424,7 +426,7 @@ PROPS["C11"] = {
     "reach": ["C11-pre", "C11-post", "C11-matrix"],
     "selftest_vars": ["v", "w", "x", "s"],
     "bounds": {"quick": "SparseFloat64Vector of dimension 3: 12 representation patterns (stored non-zero / absent / stored zero / index key without value per position) x every AVL index shape over the keys, "
-                        "one public operation (14 groups, all in-range arguments) with symbolic values; 2x2 sparse matrices from public constructors",
+                        "one public operation (15 groups, all in-range arguments) with symbolic values; 2x2 sparse matrices from public constructors",
                "thorough": "all 64 representation patterns"},
     "outside": "dimension above 3; element types other than Float64 (same template text); histories are covered through the inductive step: pre-states are arbitrary representations satisfying the weak invariant "
                "(values' keys are in the index, no nil scalars, AVL invariants)",
